@@ -295,6 +295,7 @@ func runCase(c caseIn, o *vh.Out) {
 	d := astx.NewDumper()
 	tree := d.Dump("root", c.root)
 	line := fmt.Sprintf("walk\t%d\t%s\t%s", c.m, c.recipe, tree)
+	short := fmt.Sprintf("walk\t%d\t%s", c.m, c.recipe) // for oracle records: enough for -replay
 	byID := map[int]ast.Node{}
 	collect(d, c.root, byID, 0)
 
@@ -308,8 +309,8 @@ func runCase(c caseIn, o *vh.Out) {
 		out = strings.TrimSpace("ok " + strings.Join(rec.evs, " "))
 		out2 = strings.TrimSpace("ok " + strings.Join(rec2.evs, " "))
 	}
-	if out != out2 {
-		o.Oracle("inspect-differs", line, "Walk: "+clip(out)+" Inspect: "+clip(out2))
+	if out != out2 && !panicked {
+		o.Oracle("inspect-differs", short, "Walk: "+clip(out)+" Inspect: "+clip(out2))
 	}
 	kind := astx.KindName(c.root)
 	o.Count("root_" + kind)
@@ -327,10 +328,10 @@ func runCase(c caseIn, o *vh.Out) {
 			if panicked {
 				detail += " (" + clip(msg) + ")"
 			}
-			o.Oracle(key, line, detail)
+			o.Oracle(key, short, detail)
 		} else if c.parsed {
 			if key, detail := posOrder(c.m, rec.evs, byID); key != "" {
-				o.Oracle(key, line, detail)
+				o.Oracle(key, short, detail)
 			}
 		}
 	}
